@@ -184,7 +184,7 @@ def lean_audit(pid, prop_modules, all_modules):
         problems.append("axiom audit failed to run: " + out[-800:])
     axioms_used = set()
     audited = 0
-    for mm in re.finditer(r"'([^']+)' depends on axioms: \[([^\]]*)\]", out):
+    for mm in re.finditer(r"'([^\n]+?)' depends on axioms: \[([^\]]*)\]", out):
         audited += 1
         ax = {a.strip() for a in mm.group(2).replace("\n", " ").split(",") if a.strip()}
         axioms_used |= ax
